@@ -36,6 +36,8 @@ GEN_SPEC = {"items": [
     {"kind": "calls", "file": SX, "func": "String.splitBy", "as": "splitby_calls"},
     {"kind": "calls", "file": SX, "func": "String.UnTitle", "as": "untitle_calls"},
     {"kind": "const", "file": "tools/god/config/config.go", "name": "DefaultFormat"},
+    {"kind": "calls", "file": "tools/god/config/config.go", "func": "NewConfig", "as": "newconfig_calls"},
+    {"kind": "calls", "file": "tools/god/config/config.go", "func": "validate", "as": "validate_calls"},
 ]}
 QUICK_N = 1200
 THOROUGH_N = 60000
@@ -46,7 +48,8 @@ COQ_TARGETS = COQ_FILES + ["theories/C20/Exec.v"]
 RULE = ("(template, identifier) pairs: templates from a grammar prefix+go+between+designer+suffix with the two words in "
         "lower/UPPER/Title/mixed casing, ASCII, unicode (incl. runes whose upper-casing changes the UTF-8 length) and "
         "invalid-byte prefixes/separators/suffixes, plus missing / reordered / repeated / look-alike words and random "
-        "byte strings; identifiers: snake, camel, Pascal, acronyms, repeated/leading/trailing underscores, digit words, "
+        "byte strings, and a config stream (template -> config.NewConfig -> FileNamingFormat: empty, blank and near-blank templates, "
+        "templates wrapped in white space of 13 kinds); identifiers: snake, camel, Pascal, acronyms, repeated/leading/trailing underscores, digit words, "
         "punctuation and spaces, a fixed set of non-ASCII runes, invalid UTF-8, empty; a third of the cases use an "
         "identifier of the round-trip grammar. non-trivial = accepted template with a non-empty identifier, or a "
         "rejected template that contains both words, or a round-trip identifier with >= 2 words; distinct = distinct "
@@ -71,6 +74,18 @@ NONASCII = ["\u0250", "\u0131", "\u00df", "\u01c6", "\u01c5", "\u01c4", "\u00e9"
             "\u00b7", "\u2019", "\u200d", "\u1e9e", "\u0587"]
 INVALID = [b"\xff", b"\xc0\xaf", b"\xe2\x82", b"\xed\xa0\x80", b"\xf4\x90\x80\x80", b"\x80", b"\xc3", b"\xf0\x9f\x98", b"\xfe\xbf"]
 PUNCT = [" ", ".", "'", ":", "-", ",", ";", "\t", "\n", "1", "9", "#", "$", "\"", "^", "`", "~", "/", "\x00", "\x7f"]
+
+# white space of several kinds (ASCII, NEL, NBSP, en/em spaces, ideographic space) and non-spaces that look blank
+SPACES = [" ", "\t", "\n", "\r", "\f", "\v", "\u0085", "\u00a0", "\u2003", "\u3000", "\u2028", "\u1680", "\u205f"]
+NEAR_SPACES = ["\u200b", "\ufeff", "\x00", "\x1f", "\u180e", b"\xa0", b"\xc2", b"\xe3\x80"]
+
+
+def gen_space(rng, lo=1, hi=3, near=0.0):
+    out = b""
+    for _ in range(rng.randint(lo, hi)):
+        out += b(rng.choice(NEAR_SPACES) if rng.random() < near else rng.choice(SPACES))
+    return out
+
 
 GO_FORMS = ["go", "GO", "Go"]
 GO_MIXED = ["gO"]
@@ -106,7 +121,9 @@ def gen_content(rng):
     if r < 0.30:
         return gen_ident_rt(rng)
     if r < 0.34:
-        return rng.choice([b"", b"_", b"__", b" ", b"  ", b"\t_ ", b"_ _"]), "empty"
+        if rng.random() < 0.5:
+            return rng.choice([b"", b"_", b"__", b"___", b" ", b"  ", b"\t_ ", b"_ _", b"\t", b" \n ", b"\f\v", b"\r\n"]), "empty"
+        return gen_space(rng, 1, 3, near=0.15) + (b"_" if rng.random() < 0.2 else b""), "blank"
     if r < 0.50:      # camel / Pascal / acronyms
         parts = []
         for i in range(rng.randint(1, 4)):
@@ -119,6 +136,10 @@ def gen_content(rng):
             else:
                 parts.append(w)
         return b("".join(parts)), "camel"
+    if r < 0.53:      # leading / trailing / doubled underscores around plain words
+        ws = [rng.choice(WORDS) for _ in range(rng.randint(1, 3))]
+        sep = rng.choice(["_", "__", "___"])
+        return b(rng.choice(["_", "__", ""]) + sep.join(ws) + rng.choice(["_", "__", ""])), "uscore"
     if r < 0.62:      # snake with irregular underscores, digit words, upper-case words
         parts = []
         for _ in range(rng.randint(1, 4)):
@@ -198,6 +219,24 @@ def gen_affix(rng, kind):
 
 def gen_template(rng):
     r = rng.random()
+    if r < 0.16:      # the config stream: outer / only white space, empty, near-blank
+        k = rng.random()
+        if k < 0.12:
+            return b"", "cfg-empty"
+        if k < 0.40:
+            return gen_space(rng, 1, 4, near=0.0), "cfg-blank"
+        if k < 0.50:
+            return gen_space(rng, 1, 3, near=0.5), "cfg-nearblank"
+        core, kind = gen_template_core(rng, rng.random())
+        lead = gen_space(rng, 0, 2, near=0.1)
+        trail = gen_space(rng, 0, 2, near=0.1)
+        if not lead and not trail:
+            lead = b(rng.choice(SPACES))
+        return lead + core + trail, "cfg-ws+" + kind
+    return gen_template_core(rng, rng.random())
+
+
+def gen_template_core(rng, r):
     pre, mid, suf = gen_affix(rng, "prefix"), gen_affix(rng, "between"), gen_affix(rng, "suffix")
     if r < 0.50:
         return pre + b(rng.choice(GO_FORMS)) + mid + b(rng.choice(DS_FORMS)) + suf, "valid"
@@ -291,9 +330,9 @@ def drive(cases, tier):
             shutil.rmtree(MOD_DIR)
         os.makedirs(MOD_DIR)
         needs_xtext = False
-        for sub in ("format", "stringx"):
+        for sub, rel in (("format", "util/format"), ("stringx", "util/stringx"), ("config", "config")):
             os.makedirs(os.path.join(MOD_DIR, sub))
-            srcs = [f for f in sorted(glob.glob(os.path.join(vlib.REPO, "tools", "god", "util", sub, "*.go")))
+            srcs = [f for f in sorted(glob.glob(os.path.join(vlib.REPO, "tools", "god", *rel.split("/"), "*.go")))
                     if not f.endswith("_test.go")]
             if not srcs:
                 return None, "no sources for %s under %s" % (sub, vlib.REPO)
@@ -349,9 +388,10 @@ def encode(case, obs):
     runes = [cpair(cN(r[0]), "(mkRI %s %s %s %s %s %s %s)" % (cN(r[1]), cN(r[2]), cN(r[3]), cbool(r[4]), cbool(r[5]), cbool(r[6]), cbool(r[7])))
              for r in obs["runes"]]
     xt = [cpair(cstrb(a), cstrb(b_)) for a, b_ in obs["xt"]]
-    return "mkcase %s %s %s %s %s %s %s %s %s %s" % (
+    return "mkcase %s %s %s %s %s %s %s %s %s %s %s %s" % (
         cstrb(case["t"]), cstrb(case["c"]), clist(runes), clist(xt),
-        cobs(obs["fmt"]), cobs(obs["fmt2"]), cobs(obs["camel"]), cobs(obs["snake"]), cobs(obs["rt"]), cobs(obs["untitle"]))
+        cobs(obs["fmt"]), cobs(obs["fmt2"]), cobs(obs["camel"]), cobs(obs["snake"]), cobs(obs["rt"]), cobs(obs["untitle"]),
+        cobs(obs["cfg"]), cobs(obs["cfgfmt"]))
 
 
 def nontrivial(case, obs):
@@ -360,6 +400,8 @@ def nontrivial(case, obs):
         return True
     t = bytes.fromhex(case["t"]).lower()
     if "err" in f and b"go" in t and b"designer" in t:
+        return True
+    if case["tk"].startswith(("cfg", "corpus-cfg")) and ("err" in obs["cfg"] or "ok" in obs["cfgfmt"]):
         return True
     return case["ck"] in ("rt2", "rt3")
 
@@ -392,11 +434,18 @@ def explain(case, obs):
         return "PANIC " + o.get("panic", "")
 
     what = []
-    for k in ("fmt", "fmt2", "camel", "snake", "rt"):
+    for k in ("fmt", "fmt2", "camel", "snake", "rt", "cfg", "cfgfmt"):
         if "panic" in obs[k]:
             what.append("%s panicked (c20_format_total / c20_total): %s" % (k, obs[k]["panic"]))
     if obs["fmt"] != obs["fmt2"]:
         what.append("two identical FileNamingFormat calls differ (c20_deterministic): second -> " + show(obs["fmt2"]))
+    if "ok" in obs["cfg"] and bytes.fromhex(obs["cfg"]["ok"]) != (t if t else b"godesigner"):
+        what.append("config.NewConfig(%r).NamingFormat = %r: the template must reach FileNamingFormat verbatim, only the "
+                    "empty one is the default (c20_config_verbatim / c20_config_transparent)" % (t, bytes.fromhex(obs["cfg"]["ok"])))
+    elif obs["cfgfmt"] != obs["fmt"] and t != b"" and not ("err" in obs["cfgfmt"] and "err" in obs["fmt"]):
+        what.append("through config.NewConfig the same template gives %s (cfg.NamingFormat: %s) -- the template must reach "
+                    "FileNamingFormat verbatim, only the empty one is the default (c20_config_transparent)"
+                    % (show(obs["cfgfmt"]), show(obs["cfg"])))
     if not what:
         what.append("the observed results contradict C20.Exec.spec_ok: FileNamingFormat's result is not the Spec's "
                     "rendering prefix ++ join between (style_go w1 :: map style_designer ws) ++ suffix (c20_render), or a "
